@@ -172,3 +172,43 @@ PROPS["C20"] = {
             "40 (thorough: 600) recorded concurrent histories of 2-4 clients x 6 store operations checked with porcupine against the key-value specification; 4 goroutines x all handlers free-running stress, "
             "repeated under the race detector",
 }
+
+IDP_TB = ["modelled, not verified: XML serialisation of the struct (schema.go Element builders), goxmldsig signing, RSA-OAEP/AES-CBC encryption; "
+          "the harness decodes every emitted form with the library's unmarshaller, verifies both enveloped signatures with goxmldsig under the IdP certificate "
+          "and decrypts with the SP key (testing, not proof)",
+          "the extractor's reading of the Assertion/Response composite literals (Facts.idpFieldSources): a field whose source expression changes breaks an obligation"]
+
+PROPS["C06"] = {
+    "modules": ["SamlVerif.Props.C06"],
+    "trusted_base": IDP_TB,
+    "assumptions": ["instants are integers (ms); the session provider returns the same session whatever the request (the provider is the deployment's code)",
+                    "request validation and endpoint selection are the C05 model (validate / selectACS)"],
+    "rule": "registries of 1-3 SPs x 1-2 SPSSO descriptors x 1-4 endpoints (POST/Redirect/Artifact/unknown, colliding locations and indexes, isDefault) x 0-3 key descriptors x 0-2 attribute consuming services "
+            "(20 requested names incl. punctuation/case variants, 4 name formats); requests selecting the ACS by URL / index / both / default, IssueInstant placed +-2 ms around receipt-skew and receipt-delay; "
+            "IdP-initiated launches; RSA key or opaque crypto.Signer x 5 signature methods x intermediates; MaxIssueDelay/MaxClockSkew incl. zero; a stepping TimeNow separates receipt from issuance; "
+            "every emitted form decoded and compared field by field with the model",
+}
+
+PROPS["C07"] = {
+    "modules": ["SamlVerif.Props.C07"],
+    "trusted_base": IDP_TB + ["modelled, not verified: the UTF-8 layer of etree's writer and encoding/xml's reader (the model works on code points); exclusive canonicalisation",
+                              "metadata XML marshal/parse is exercised (real Metadata() -> XML -> samlsp.ParseMetadata on both sides) and compared with the model's projection, not proved"],
+    "assumptions": ["both sides run with the same MaxIssueDelay / MaxClockSkew (package variables of one library) and skew >= 0",
+                    "SP consumes within MaxIssueDelay of the IdP's receipt; the request's IssueInstant is not ahead of the consumer's clock by more than the skew"],
+    "rule": "writer: etree in its three modes on generated strings (45 hostile pieces, arbitrary code points incl. non-characters) vs model escape; reader: encoding/xml on 45 pieces of references "
+            "(valid, unterminated, overflowing, surrogate, out-of-range), raw CR/CRLF, ]]>, illegal characters in text and attribute position vs model scan; "
+            "round trips: real SP (entity ID set/unset, RSA/ECDSA/no key, redirect/POST, signed/unsigned) -> real IdP (5 methods, key/signer) registered with the SP's published metadata -> real SP configured from the IdP's published metadata, "
+            "sessions over hostile strings; every hostile piece alone in NameID / attribute value / group, encrypted and not",
+}
+
+PROPS["C08"] = {
+    "modules": ["SamlVerif.Props.C08"],
+    "trusted_base": IDP_TB + SP_TB + ["confidentiality of RSA-OAEP / AES-CBC is not claimed; 'recoverable with no other key' is tested by trying the other keys of the harness",
+                                       "draw order from RandReader (responseDraws) is hand-written from identity_provider.go / xmlenc and tied by the counting-reader correspondence"],
+    "assumptions": ["RandReader yields independent uniform bytes: disjoint segments of the stream are then independent (freshness is stated as disjointness of segments)"],
+    "rule": "key-descriptor layouts: every (use in encryption/omitted/signing) x (9 certificate strings: two RSA certs, line-wrapped, EC, empty, blank, bad base64, bad DER, truncated) x (one or two certificates), "
+            "all ordered pairs of an 8-descriptor basis, plus random layouts of 0-3 descriptors; per layout a real response is served for a session of unique SECRET-tagged strings, "
+            "the emitted bytes are scanned for every session string in raw / XML / HTML / URL-escaped / base64 form, decrypted with the SP key and tried with three foreign keys; "
+            "runs of 2-6 encrypted responses under a counting RandReader locate each content key and IV in the stream (vs model layout); key/IV distinctness under crypto/rand; "
+            "SP side: responses with assertions encrypted by the IdP, by an attacker, to a foreign key, signed/unsigned at both levels with perturbed conditions vs the struct-level model",
+}
